@@ -26,14 +26,15 @@ INTERNAL_ERRORS = (IndexError, TypeError, ValueError, ZeroDivisionError, Recursi
                    np.exceptions.DTypePromotionError if hasattr(np, 'exceptions') else TypeError)
 
 
-def pick_policy(rnd):
+def pick_policy(rnd, starve=(60, 150, 400)):
     x = rnd.random()
     if x < 0.40:
         return {'name': 'fair'}
     name = 'collide' if x < 0.60 else 'edge' if x < 0.75 else 'mix'
     # bursts are bounded so that legal rejection loops stay live; a minority of runs gets very long bursts ("starvation":
-    # hundreds of consecutive colliding draws, which fair seeds only produce on hub-dominated graphs of 40+ nodes)
-    burst = rnd.choice((2, 6, 12, 20)) if rnd.random() < 0.8 else rnd.choice((60, 150, 400))
+    # hundreds of consecutive colliding draws, which fair seeds only produce on hub-dominated graphs of 40+ nodes; the rewiring
+    # scenarios also get bursts of 3000, i.e. more than 1000 consecutive non-disjoint edge pairs - a star with 300+ leaves)
+    burst = rnd.choice((2, 6, 12, 20)) if rnd.random() < 0.8 else rnd.choice(starve)
     return {'name': name, 'rate': rnd.choice((0.05, 0.15, 0.3)), 'burst': burst, 'site_frac': rnd.choice((0.5, 0.8, 1.0))}
 
 
@@ -492,7 +493,7 @@ def gen_case(sub, routines, scn_id, connected=False, nmax=12, invalid_frac=0.0):
     budget = int(20000 + 400 * itr * max(k, 1) * 3)
     if routine == 'randomize_graph_partial_und':
         budget = 4000 + 2000 * params['maxswap']
-    case = {'scn': scn_id, 'routine': routine, 'W': enc(W), 'params': params, 'seed': sub, 'policy': pick_policy(rnd),
+    case = {'scn': scn_id, 'routine': routine, 'W': enc(W), 'params': params, 'seed': sub, 'policy': pick_policy(rnd, starve=(60, 150, 400, 3000)),
             'budget': budget, 'trace': None, 'meta': meta}
     x = rnd.random()
     if x < 0.08:
